@@ -14,7 +14,7 @@ EXPLANATION = (
     "row/column are read from the record positions of the same name with defaults -1; that each option setter writes only "
     "its flag, each post-processing stage is control-dependent on exactly its flag, both coordinate conversions run before "
     "the pose for every point, and normalisation switches feed the right channels; and that the iterator yields only while "
-    "read < records with one increment per yield. Not decided: numeric agreement with the raw iterator on concrete files.")
+    "read < records with one increment per yield. The stage calls depend on their flag and on nothing else. Not decided: numeric agreement with the raw iterator on concrete files.")
 
 
 def run(ctx):
